@@ -1,5 +1,7 @@
 from _bs_common import EXT, HASH_STUBS
 PROPERTY = dict(
+    jobs=8,   # queries of 3-5 GB each: keep the total well under the machine's memory
+    jobs_thorough=6,   # thorough queries need several GB each
     level='model_checking',
     level_text='Bounded model checking of the real ExternalCommand::getSignature over an IDEAL hash: every hash_value/hash_combine instantiation it reaches is redirected to a stub that interns (previous state, data fed) and returns the intern id, so two signatures are equal exactly when the same information was fed in the same order.  For every pair of definitions (name, <= 2 inputs, <= 2 outputs, three flags; strings <= 2 bytes over {a,b}) equal definitions get equal signatures (determinism: nothing but the definition enters) and different definitions get different ones - except the recorded known finding (list boundary).  Validity of stored results after a definition change is C01-O1 (signature compared before validity); output tampering is C08-V2.',
     level_note='Trusted: as C08, plus the ideal-hash abstraction: collisions of the real 64-bit hash and its process independence (fixed seed) are NOT decided. ShellCommand::getSignature (args, env, deps settings) is not covered.',
